@@ -205,10 +205,13 @@ func joinParts(parts []string, sep func(i int) string) string {
 
 var printedForms = []string{`/u<a>`, `/t/u<a b>`, `/_<x>`, `_:b1`, `?x`, `?long_name1`, `"p"@[]`, `"p q"@[2006-01-02T15:04:05.999999999Z]`,
 	`"p"@[2006-01-02T15:04:05+01:00]`, `"p"@[,]`, `"p"@[2006-01-02T15:04:05Z,2007-01-02T15:04:05Z]`, `"é@"@[]`,
-	`"true"^^type:bool`, `"-1"^^type:int64`, `"1.5e+07"^^type:float64`, `"a b"^^type:text`, `"[1 2 3]"^^type:blob`, `""^^type:text`}
+	`"true"^^type:bool`, `"-1"^^type:int64`, `"1.5e+07"^^type:float64`, `"a b"^^type:text`, `"[1 2 3]"^^type:blob`, `""^^type:text`,
+	// the witnesses of known finding D36 (a text ending with a backslash) and of fix ed4a530 (a predicate ID ending with one)
+	`"a\"^^type:text`, `"a\\"@[]`,
+}
 
 func generatedPrintedForms(r *rng, n int) []string {
-	pieces := []string{"a", "b", " ", "@", "[", "]", "^", ":", "<", ">", "/", "?", "_", ",", ";", "é", ".", "T", "1", "-", "type", "@[", "^^type:", "]/", "@[]", "as", "{", "}", "(", "="}
+	pieces := []string{"a", "b", " ", "@", "[", "]", "^", ":", "<", ">", "/", "?", "_", ",", ";", "é", ".", "T", "1", "-", "type", "@[", "^^type:", "]/", "@[]", "as", "{", "}", "(", "=", "\\", "\n"}
 	word := func(ps []string) string {
 		var b strings.Builder
 		for i := 0; i < r.intn(5); i++ {
@@ -223,11 +226,11 @@ func generatedPrintedForms(r *rng, n int) []string {
 		var s string
 		switch r.intn(6) {
 		case 0:
-			if l, err := literal.DefaultBuilder().Build(literal.Text, word(pieces)); err == nil {
+			if l, err := literal.DefaultBuilder().Build(literal.Text, word(pieces)+[]string{"", "", "\\"}[r.intn(3)]); err == nil {
 				s = l.String()
 			}
 		case 1:
-			if p, err := predicate.NewImmutable(word(pieces) + "p"); err == nil {
+			if p, err := predicate.NewImmutable(word(pieces) + []string{"p", "p", "\\", "p\\\\"}[r.intn(4)]); err == nil {
 				s = p.String()
 			}
 		case 2:
